@@ -32,6 +32,22 @@ def expected_exts(tokens):
     return oids, crit, vals
 
 
+_CA = {}
+
+
+def ca_cert_for(name_content, b):
+    """a self-signed CA certificate for x509drv's fixed key of pattern b (0x55 = the issuing key, 0x77 = another key) under the given Name (content octets), written by ref/derw.py"""
+    import derw as W
+    if (name_content, b) not in _CA:
+        d = int.from_bytes(bytes([0x31]) + bytes([b]) * 31, "big"); P = W.mul(d, W.G)
+        nm = W.seq(name_content)
+        tbs = W.seq(W.explicit(0, W.dint(2)), W.dint(1), W.seq(W.oid(W.OID_SM2SIGN)), nm, W.seq(W.x509time(1700000000), W.x509time(2000000000)), nm, W.spki(P),
+                    W.explicit(3, W.seq(W.ext_bc(True, None), W.ext_ku(["keyCertSign", "cRLSign"]))))
+        r, s_ = W.sign(d, P, tbs, 0x1234567 + b)
+        _CA[(name_content, b)] = W.seq(tbs, W.seq(W.oid(W.OID_SM2SIGN)), W.dbits(W.sigval(r, s_)))
+    return _CA[(name_content, b)]
+
+
 def gen(c):
     rng = c.rng
     rb = lambda k: bytes(rng.getrandbits(8) for _ in range(k))
@@ -66,6 +82,8 @@ def gen(c):
                 rinfo = [(r, -1 if i == 0 else nb - 30) for r in [0, 1, 2, 3, 4, 5, 6, 8, 9, 10, -1]]
             o = dict(kind=kind, serial=rng.choice(serials), nb=nb, nbs=rng.choice([0, 1, 86399]), na=na, nas=rng.choice([0, 86399]), cn=cn, cntag=tag, org=rng.choice(["-", "4f7267", "e585ace58fb8"]),
                      icn="526f6f74", icntag=12, iorg="-", exts=",".join(exts) or "-", sid=sid, revoked=",".join("%s:%d:%d" % (x.hex(), r, iv) for x, (r, iv) in zip(revoked, rinfo)) or "-", seed=100 + i)
+            if kind == "cert" and i % 4 == 3:
+                o["self"] = 1          # a self-signed certificate (subject = issuer, certified key = issuing key): it is its own issuer certificate
             add(**o)
             objs.append((o, revoked, rinfo))
     # extension values whose size walks across the DER length-form switches (127/128, 255/256) -- issued, parsed back, verified; no tamper sweep for these
@@ -129,6 +147,34 @@ def body():
         if o["kind"] != "req" and len(occ) >= 2:
             for nm, i in (("inner", occ[0]), ("outer", occ[-1])):
                 v("algswap:%s" % nm, der[:i] + ECDSA256 + der[i + 8:], "right", sid, True, True, True)
+        # the issuer given as a CERTIFICATE (x509_cert_verify_by_ca_cert, x509_crl_verify_by_ca_cert, x509_signed_verify_by_ca_cert): an issuer certificate written by
+        # the reference encoder for the issuing key (or for another key under the same name); a self-signed certificate also against itself -- where the
+        # modified copy is BOTH arguments, so nothing but the signature check stands between it and acceptance
+        if o["kind"] in ("cert", "crl"):
+            iname = bytes(issue["issuer"])
+            via = []
+
+            def vv(what, d, how, ca, sidv, keyright, sidright, tampered):
+                follow.append({"kind": "verify", "obj": o["kind"], "der": CL.hx(d), "via": how, "ca": CL.hx(ca) if ca else "-", "key": "right", "sid": CL.hx(sidv), "id": len(follow) + 1})
+                fmeta.append((key + ":" + what, {"keyright": keyright, "sidright": sidright, "tampered": tampered}))
+            ca_r, ca_o = ca_cert_for(iname, 0x55), ca_cert_for(iname, 0x77)
+            nb_ = len(der) * 8
+            vbits = sorted(set([rng.randrange(nb_) for _ in range(10)] + [nb_ - 1 - 8 * k for k in (0, 20, 40, 60)] + [8 * 12 + 3, 8 * 30 + 1]))
+            for how in ("cacert", "signedca"):
+                vv("via-%s:right" % how, der, how, ca_r, sid, True, True, False)
+                vv("via-%s:otherkey" % how, der, how, ca_o, sid, False, True, False)
+                vv("via-%s:otherid" % how, der, how, ca_r, sid + b"x", True, False, False)
+                for bit in vbits:
+                    x = bytearray(der); x[bit // 8] ^= 1 << (bit % 8)
+                    vv("via-%s:flip:bit%d" % (how, bit), bytes(x), how, ca_r, sid, True, True, True)
+            if o["kind"] == "cert":
+                vv("via-cacert:othername", der, "cacert", ca_cert_for(iname[:-1] + bytes([iname[-1] ^ 1]), 0x55), sid, True, True, True)     # right key under another name
+            if o.get("self"):
+                vv("via-self:right", der, "self", None, sid, True, True, False)
+                vv("via-self:otherid", der, "self", None, sid + b"x", True, False, False)
+                for bit in vbits + list(range(nb_ - 64 * 8, nb_, 37)):
+                    x = bytearray(der); x[bit // 8] ^= 1 << (bit % 8)
+                    vv("via-self:flip:bit%d" % bit, bytes(x), "self", None, sid, True, True, True)
         if o.get("light"):
             continue
         nbits = len(der) * 8
